@@ -297,6 +297,11 @@ func NewResolver(cfg *config.Config) *Resolver {
 		r.rootKeys = append(r.rootKeys, rr)
 	}
 	r.configuredRootKeys = slices.Clone(r.rootKeys)
+	// The configuration may still list a key whose revocation is already on
+	// disk. The first AutoTA run only starts after the pipeline is up and the
+	// root priming query has finished; until then this set is what queries —
+	// and the priming answer itself — are validated against.
+	r.rootKeys = startupTrustAnchors(cfg.Directory, r.rootKeys)
 
 	// Initialize TCP connection pool if enabled
 	if cfg.TCPKeepalive {
